@@ -438,6 +438,9 @@ fn bounds(tier: Tier) -> Vec<(Cfg12, usize)> {
             (cr(Fam::Nest, 0, true, 'm'), 8),
             (cm(Fam::Txt, 0, true, 3), 8),
             (c(Fam::Xml, 0, true, false), 4),
+            // untracked-origin edits squashed with tracked ones, range deletes over both (one capture step per action)
+            (ca(Fam::Txt, 1, true, true), 5),
+            (ca(Fam::Arr, 1, true, true), 5),
         ],
         Tier::Thorough => vec![
             (c(Fam::Txt, 0, true, false), 9),
@@ -464,6 +467,8 @@ fn bounds(tier: Tier) -> Vec<(Cfg12, usize)> {
             (ca(Fam::Map, 1, true, true), 6),
             (c(Fam::Xml, 0, true, false), 6),
             (c(Fam::Xml, 0, true, true), 4),
+            (ca(Fam::Txt, 1, true, true), 6),
+            (ca(Fam::Arr, 1, true, true), 6),
         ],
     }
 }
